@@ -282,8 +282,22 @@ func runC13(cx *Ctx, r *Report) {
 		// the one the rule is about, and there must be one
 		var proc []hev
 		for _, it := range iters {
-			f := it.ev.Fr.Fn
-			pure := true
+			// the consumer of the iterator: a helper that hands the iterator out is
+			// looked through, its caller does the processing
+			cfr := it.ev.Fr
+			handsOut := func(f *ssa.Function) bool {
+				for i := 0; i < f.Signature.Results().Len(); i++ {
+					if strings.Contains(f.Signature.Results().At(i).Type().String(), "Iterator") {
+						return true
+					}
+				}
+				return cx.snapshotCollector(f)
+			}
+			for cfr.Parent != nil && handsOut(cfr.Fn) {
+				cfr = cfr.Parent
+			}
+			f := cfr.Fn
+			pure := !handsOut(f)
 			for k := range cx.transPrimKinds(f) {
 				if isMutatingKind(k) {
 					pure = false
@@ -294,13 +308,7 @@ func runC13(cx *Ctx, r *Report) {
 					pure = false
 				}
 			}
-			for i := 0; i < f.Signature.Results().Len(); i++ {
-				// a helper that hands the iterator out: its caller does the processing
-				if strings.Contains(f.Signature.Results().At(i).Type().String(), "Iterator") {
-					pure = false
-				}
-			}
-			if !pure || f.Parent() != nil || it.ev.Fr.Parent == nil {
+			if !pure || f.Parent() != nil || cfr.Parent == nil {
 				proc = append(proc, it)
 			}
 		}
@@ -355,6 +363,8 @@ func runC13(cx *Ctx, r *Report) {
 			var mine []hev
 			okMust := false
 			form := ""
+			loopFr, lh, consumer, ch, shapeOK := cx.iterationConsumer(it.ev.Fr)
+			snapName, wrongLoop := "", false
 			if body != nil {
 				form = "closure " + shortFn(body.Fn)
 				sites := map[ssa.Instruction]bool{}
@@ -370,7 +380,8 @@ func runC13(cx *Ctx, r *Report) {
 				// every path through the body passes one of the deleting sites
 				okMust = adaptersOK && len(sites) > 0 && mustPass(body.Fn, func(x ssa.Instruction) bool { return sites[x] })
 			} else {
-				// loop form: the handler consumes the iterator itself
+				// loop form: the handler consumes the iterator itself, or ranges over a
+				// snapshot of the bucket taken by a read-only collector
 				for L := it.ev.Fr; L != nil && !okMust; L = L.Parent {
 					var sites []ssa.Instruction
 					var cand []hev
@@ -384,12 +395,24 @@ func runC13(cx *Ctx, r *Report) {
 						form = "loop in " + shortFn(L.Fn)
 						mine = cand
 						okMust = perIterationMust(sites)
+						if shapeOK && consumer != loopFr {
+							form = "loop in " + shortFn(L.Fn) + " over the snapshot taken by " + shortFn(loopFr.Fn)
+							snapName = callName(loopFr.Call)
+						}
+						if !shapeOK || L != consumer || loopHeaderOf(sites[0].Block()) != ch {
+							okMust = false
+							wrongLoop = true
+						}
 						break
 					}
 				}
 			}
 			if len(mine) == 0 {
 				r.violate("dequeue", key, pos, "the per-entry body of the "+q.what+" ("+form+") never deletes the entry it processes: the entry stays queued")
+				continue
+			}
+			if wrongLoop {
+				r.violate("dequeue", key, mine[0].ev.Pos(cx), "the deletes of the "+q.what+" ("+form+") are not in the loop that walks the queue (or its snapshot): entries are not deleted one per processed entry")
 				continue
 			}
 			if !okMust {
@@ -430,6 +453,9 @@ func runC13(cx *Ctx, r *Report) {
 					if body == nil && (strings.Contains(kArgs[i], "new:") || strings.Contains(kArgs[i], "Iterator.")) {
 						elem = true
 					}
+					if body == nil && snapName != "" && strings.Contains(kArgs[i], snapName+"(") && strings.Contains(kArgs[i], ")[") {
+						elem = true // an element of the snapshot
+					}
 				}
 				if !elem {
 					okKey, why = false, "no component of the deleted key "+d.ev.Args[0].LooseString()+" comes from the iterated element"
@@ -455,6 +481,29 @@ func runC13(cx *Ctx, r *Report) {
 				}
 			}
 			r.ok("dequeue", key, mine[0].ev.Pos(cx), fmt.Sprintf("%s iterated at %s; per-entry body (%s) deletes the processed entry on every path, key height = iterator bound, id from the element%s", q.what, pos, form, map[bool]string{true: "; companion " + q.marker + " deleted with it", false: ""}[q.marker != ""]))
+			// the whole bucket is drained: the loop that walks the iterator ends only when the
+			// iterator is exhausted. A bucket is looked at in the one block of its height, so
+			// entries left behind by a break, an early return or a callback that asks to stop
+			// are never processed.
+			{
+				early, stopProto := "", false
+				found := shapeOK
+				if shapeOK {
+					early, stopProto = cx.loopEarlyExit(loopFr.Fn, lh)
+					if consumer != loopFr && early == "" {
+						e2, sp2 := cx.loopEarlyExit(consumer.Fn, ch)
+						early, stopProto = e2, stopProto || sp2
+					}
+				}
+				if stopProto {
+					for _, cf := range bodies {
+						if at := mayReturnNonFalse(cf.Fn, 0); at != nil {
+							early = cx.P.Pos(at.Pos()) + " (the per-entry callback can ask the iteration to stop)"
+						}
+					}
+				}
+				r.check(found && early == "", "drain-complete", key, pos, "the iteration over the "+q.what+" ends only when the iterator is exhausted", "the iteration over the "+q.what+" can end early ("+early+"): the remaining due entries are never looked at again and stay queued")
+			}
 		}
 	}
 	// other iterations inside block handlers (informational)
@@ -981,6 +1030,10 @@ func (cx *Ctx) c13Aborts(r *Report, get func(Entry) *c13Walk) {
 				key := kc.next(moduleOf(funcPkgPath(s.fn)) + "|" + s.name + "|" + anchorOf(cx, s.fn))
 				if s.kind == "panic" {
 					if infeasible(cw.w.FactsAt(fr, s.ins)) {
+						continue
+					}
+					if why := cx.unitIntervalAssertion(s.ins.(*ssa.Panic)); why != "" {
+						r.ok("abort-class", key, pos, "explicit panic reachable from "+entryKey(cw.e)+" cannot fire: "+why)
 						continue
 					}
 					r.violate("abort-class", key, pos, "explicit panic reachable from "+entryKey(cw.e)+" on chain "+fr.String()+": a panic inside a block handler halts the chain")
@@ -1528,4 +1581,439 @@ func forwardsToCallback(x ssa.Instruction) bool {
 		return isSig
 	}
 	return false
+}
+
+// iteratorLoopHeader: the header of a loop in fn whose continuation test is the
+// iterator's Valid() (nil if fn has none).
+func iteratorLoopHeader(fn *ssa.Function) *ssa.BasicBlock {
+	if fn == nil || fn.Blocks == nil {
+		return nil
+	}
+	for _, b := range fn.Blocks {
+		ifi, ok := b.Instrs[len(b.Instrs)-1].(*ssa.If)
+		if !ok {
+			continue
+		}
+		c, ok := ifi.Cond.(*ssa.Call)
+		if !ok || !c.Common().IsInvoke() || c.Common().Method.Name() != "Valid" {
+			continue
+		}
+		for _, p := range b.Preds {
+			if b.Dominates(p) {
+				return b
+			}
+		}
+	}
+	return nil
+}
+
+// isCallbackResult: v is the (possibly negated) boolean result of calling a function
+// value the enclosing function received.
+func isCallbackResult(v ssa.Value) bool {
+	for {
+		if u, ok := v.(*ssa.UnOp); ok && u.Op == token.NOT {
+			v = u.X
+			continue
+		}
+		break
+	}
+	c, ok := v.(*ssa.Call)
+	if !ok || c.Common().IsInvoke() {
+		return false
+	}
+	switch c.Common().Value.(type) {
+	case *ssa.Parameter, *ssa.FreeVar:
+		return true
+	}
+	return false
+}
+
+// snapshotCollector: f is a read-only collector of a work list: it walks a store
+// iterator, appends one element to a slice on every path through the loop body, and
+// returns that slice. Its caller, ranging over the result, is the consumer of the
+// iteration (`for _, e := range k.GetDue(ctx, h) { … }`).
+func (cx *Ctx) snapshotCollector(f *ssa.Function) bool {
+	if f == nil || f.Blocks == nil || f.Signature.Results().Len() != 1 {
+		return false
+	}
+	sl, ok := f.Signature.Results().At(0).Type().Underlying().(*types.Slice)
+	if !ok {
+		return false
+	}
+	if b, ok := sl.Elem().Underlying().(*types.Basic); ok && b.Kind() == types.Byte {
+		return false
+	}
+	for k := range cx.transPrimKinds(f) {
+		if isMutatingKind(k) {
+			return false
+		}
+	}
+	h := iteratorLoopHeader(f)
+	if h == nil {
+		return false
+	}
+	inL := func(b *ssa.BasicBlock) bool { return b == h || (h.Dominates(b) && blockReaches(b, h)) }
+	// the appends in the loop that feed the returned slice
+	var sites []ssa.Instruction
+	seen := map[ssa.Value]bool{}
+	var back func(v ssa.Value)
+	back = func(v ssa.Value) {
+		if v == nil || seen[v] {
+			return
+		}
+		seen[v] = true
+		switch x := v.(type) {
+		case *ssa.Phi:
+			for _, e := range x.Edges {
+				back(e)
+			}
+		case *ssa.UnOp:
+			if a, ok := x.X.(*ssa.Alloc); ok && x.Op == token.MUL && a.Referrers() != nil {
+				for _, r := range *a.Referrers() {
+					if st, ok := r.(*ssa.Store); ok && st.Addr == a {
+						back(st.Val)
+					}
+				}
+			}
+		case *ssa.Slice:
+			back(x.X)
+		case *ssa.Call:
+			if b, ok := x.Common().Value.(*ssa.Builtin); ok && b.Name() == "append" {
+				if inL(x.Block()) {
+					sites = append(sites, x)
+				}
+				back(x.Common().Args[0])
+			}
+		}
+	}
+	for _, ret := range returnsOf(f) {
+		if len(ret.Results) == 1 {
+			back(ret.Results[0])
+		}
+	}
+	return len(sites) > 0 && loopHeaderOf(sites[0].Block()) == h && perIterationMust(sites)
+}
+
+// rangeLoopOver: the header of the `for … range v` loop over the slice v
+// (index compared against len(v)).
+func rangeLoopOver(v ssa.Value) *ssa.BasicBlock {
+	if v == nil || v.Referrers() == nil {
+		return nil
+	}
+	for _, r := range *v.Referrers() {
+		c, ok := r.(*ssa.Call)
+		if !ok {
+			continue
+		}
+		if b, ok := c.Common().Value.(*ssa.Builtin); !ok || b.Name() != "len" || c.Referrers() == nil {
+			continue
+		}
+		for _, r2 := range *c.Referrers() {
+			bo, ok := r2.(*ssa.BinOp)
+			if !ok || bo.Op != token.LSS || bo.Y != ssa.Value(c) || bo.Referrers() == nil {
+				continue
+			}
+			for _, r3 := range *bo.Referrers() {
+				if ifi, ok := r3.(*ssa.If); ok {
+					h := ifi.Block()
+					for _, p := range h.Preds {
+						if h.Dominates(p) {
+							return h
+						}
+					}
+				}
+			}
+		}
+	}
+	return nil
+}
+
+// loopEarlyExit: a way to leave the loop with header h other than the header's own
+// exhaustion test. stopProto reports an exit governed by a callback's boolean answer.
+func (cx *Ctx) loopEarlyExit(fn *ssa.Function, h *ssa.BasicBlock) (early string, stopProto bool) {
+	inL := func(b *ssa.BasicBlock) bool { return b == h || (h.Dominates(b) && blockReaches(b, h)) }
+	for _, b := range fn.Blocks {
+		if !inL(b) || b == h {
+			continue
+		}
+		leaves := false
+		for _, sc := range b.Succs {
+			// an exit that can only abort (panic, failure return) leaves nothing behind:
+			// the block is not committed
+			if !inL(sc) && !onlyFailureExits(sc, nil) {
+				leaves = true
+			}
+		}
+		if ret, isRet := b.Instrs[len(b.Instrs)-1].(*ssa.Return); isRet && !isFailureReturn(ret) {
+			leaves = true
+		}
+		if !leaves {
+			continue
+		}
+		// `if stop := op(…); stop { break }`: governed by the callback's answer
+		if ifi, ok := b.Instrs[len(b.Instrs)-1].(*ssa.If); ok && isCallbackResult(ifi.Cond) {
+			stopProto = true
+			continue
+		}
+		early = cx.P.Pos(condPos(nil, b))
+	}
+	return early, stopProto
+}
+
+// iterationConsumer: for an iteration event, the frame that holds the loop walking
+// the iterator (loopFr, header h) and, when that loop is a read-only snapshot
+// collector, the frame that ranges over the snapshot (consumer, header ch).
+// For a direct loop consumer == loopFr and ch == h. ok is false when the shape is
+// neither (e.g. the collector's result is not ranged over by its caller).
+func (cx *Ctx) iterationConsumer(itFr *Frame) (loopFr *Frame, h *ssa.BasicBlock, consumer *Frame, ch *ssa.BasicBlock, ok bool) {
+	for f := itFr; f != nil; f = f.Parent {
+		if hh := iteratorLoopHeader(f.Fn); hh != nil {
+			loopFr, h = f, hh
+			break
+		}
+	}
+	if loopFr == nil {
+		return nil, nil, nil, nil, false
+	}
+	if !cx.snapshotCollector(loopFr.Fn) || loopFr.Parent == nil || loopFr.Call == nil {
+		return loopFr, h, loopFr, h, true
+	}
+	cv, _ := loopFr.Call.(ssa.Value)
+	ch = rangeLoopOver(cv)
+	if ch == nil {
+		return loopFr, h, nil, nil, false
+	}
+	return loopFr, h, loopFr.Parent, ch, true
+}
+
+// ---------------------------------------------------------------- range assertions
+
+// unitIntervalProducer: every return of f is new(big.Rat).SetFrac(x mod P, P) with one
+// and the same P = 10^k (k a positive constant): a non-nil value in [0,1).
+func unitIntervalProducer(f *ssa.Function) bool {
+	if f == nil || f.Blocks == nil {
+		return false
+	}
+	rets := returnsOf(f)
+	if len(rets) == 0 {
+		return false
+	}
+	for _, ret := range rets {
+		if len(ret.Results) != 1 {
+			return false
+		}
+		c, ok := ret.Results[0].(*ssa.Call)
+		if !ok {
+			return false
+		}
+		if pkg, name := calleeName(c.Common()); pkg != "math/big" || name != "Rat.SetFrac" {
+			return false
+		}
+		args := c.Common().Args
+		num, den := args[1], args[2]
+		m, ok := num.(*ssa.Call)
+		if !ok {
+			return false
+		}
+		if pkg, name := calleeName(m.Common()); pkg != "math/big" || name != "Int.Mod" || m.Common().Args[2] != den {
+			return false
+		}
+		e, ok := den.(*ssa.Call)
+		if !ok {
+			return false
+		}
+		if pkg, name := calleeName(e.Common()); pkg != "math/big" || name != "Int.Exp" {
+			return false
+		}
+		a := e.Common().Args
+		if bigConst(a[1]) != "10" || bigConst(a[2]) == "" || strings.HasPrefix(bigConst(a[2]), "-") || bigConst(a[2]) == "0" {
+			return false
+		}
+		if k, ok := a[3].(*ssa.Const); !ok || !k.IsNil() {
+			return false
+		}
+	}
+	return true
+}
+
+// impliedByUnitInterval: pred(r *big.Rat) bool returns true for every non-nil r in
+// [0,1): following the true edge of every branch (each condition being one of the
+// atoms r != nil, r.Sign() >= 0, r.Sign() > -1, r.Cmp(1) < 0) reaches a return of
+// such an atom or of the constant true.
+func impliedByUnitInterval(pred *ssa.Function) bool {
+	if pred == nil || pred.Blocks == nil || len(pred.Params) != 1 || pred.Signature.Results().Len() != 1 {
+		return false
+	}
+	p := pred.Params[0]
+	isOne := func(v ssa.Value) bool {
+		c, ok := v.(*ssa.Call)
+		if !ok {
+			return false
+		}
+		if pkg, name := calleeName(c.Common()); pkg != "math/big" || name != "NewRat" {
+			return false
+		}
+		a, ok1 := c.Common().Args[0].(*ssa.Const)
+		b, ok2 := c.Common().Args[1].(*ssa.Const)
+		return ok1 && ok2 && a.Value != nil && b.Value != nil && a.Value.ExactString() == b.Value.ExactString() && a.Value.ExactString() != "0"
+	}
+	method := func(v ssa.Value, name string) *ssa.Call {
+		c, ok := v.(*ssa.Call)
+		if !ok || len(c.Common().Args) == 0 || c.Common().Args[0] != ssa.Value(p) {
+			return nil
+		}
+		if pkg, n := calleeName(c.Common()); pkg != "math/big" || n != name {
+			return nil
+		}
+		return c
+	}
+	constIs := func(v ssa.Value, s string) bool {
+		c, ok := v.(*ssa.Const)
+		return ok && c.Value != nil && c.Value.ExactString() == s
+	}
+	atom := func(v ssa.Value) bool {
+		if c, ok := v.(*ssa.Const); ok {
+			return c.Value != nil && c.Value.ExactString() == "true"
+		}
+		b, ok := v.(*ssa.BinOp)
+		if !ok {
+			return false
+		}
+		switch {
+		case b.Op == token.NEQ && b.X == ssa.Value(p):
+			c, ok := b.Y.(*ssa.Const)
+			return ok && c.IsNil()
+		case b.Op == token.GEQ && method(b.X, "Rat.Sign") != nil && constIs(b.Y, "0"):
+			return true
+		case b.Op == token.GTR && method(b.X, "Rat.Sign") != nil && constIs(b.Y, "-1"):
+			return true
+		case b.Op == token.LSS && constIs(b.Y, "0"):
+			if c := method(b.X, "Rat.Cmp"); c != nil && isOne(c.Common().Args[1]) {
+				return true
+			}
+		}
+		return false
+	}
+	b := pred.Blocks[0]
+	var prev *ssa.BasicBlock
+	for steps := 0; steps < 64; steps++ {
+		switch last := b.Instrs[len(b.Instrs)-1].(type) {
+		case *ssa.If:
+			if !atom(last.Cond) {
+				return false
+			}
+			prev, b = b, b.Succs[0]
+		case *ssa.Jump:
+			prev, b = b, b.Succs[0]
+		case *ssa.Return:
+			v := last.Results[0]
+			if phi, ok := v.(*ssa.Phi); ok && phi.Block() == b && prev != nil {
+				for i, pb := range b.Preds {
+					if pb == prev {
+						v = phi.Edges[i]
+					}
+				}
+			}
+			return atom(v)
+		default:
+			return false
+		}
+	}
+	return false
+}
+
+// unitIntervalAssertion: the panic is an assertion that cannot fire: its block is
+// entered only when pred(v) is false, v being the direct result of a generator that
+// yields [0,1) by construction and pred being implied by membership in [0,1).
+func (cx *Ctx) unitIntervalAssertion(pn *ssa.Panic) string {
+	b := pn.Block()
+	for steps := 0; steps < 8; steps++ {
+		if len(b.Preds) != 1 {
+			return ""
+		}
+		p := b.Preds[0]
+		ifi, ok := p.Instrs[len(p.Instrs)-1].(*ssa.If)
+		if !ok {
+			b = p
+			continue
+		}
+		want := p.Succs[1] == b // entered on the false edge: the condition must be pred(v)
+		cond := ifi.Cond
+		for {
+			if u, ok := cond.(*ssa.UnOp); ok && u.Op == token.NOT {
+				cond = u.X
+				want = !want
+				continue
+			}
+			break
+		}
+		c, ok := cond.(*ssa.Call)
+		if !ok || !want || len(c.Common().Args) != 1 {
+			return ""
+		}
+		pred := c.Common().StaticCallee()
+		g, ok := c.Common().Args[0].(*ssa.Call)
+		if !ok {
+			return ""
+		}
+		gen := g.Common().StaticCallee()
+		if gen == nil && g.Common().IsInvoke() {
+			return ""
+		}
+		if impliedByUnitInterval(pred) && unitIntervalProducer(gen) {
+			return "assertion " + shortFn(pred) + " on the result of " + shortFn(gen) + ", which is (x mod P)/P with P = 10^k by construction: every branch of the predicate holds on [0,1)"
+		}
+		return ""
+	}
+	return ""
+}
+
+
+// mayReturnNonFalse: a return of fn whose single boolean result is not the constant
+// false - looking through φs and through calls to functions (helpers, the method behind
+// a bound-method wrapper) that themselves always return false. nil when fn always
+// returns false.
+func mayReturnNonFalse(fn *ssa.Function, depth int) ssa.Instruction {
+	if fn == nil || fn.Blocks == nil || depth > 4 {
+		if fn != nil && fn.Blocks != nil {
+			return fn.Blocks[0].Instrs[0]
+		}
+		return nil
+	}
+	var bad ssa.Instruction
+	seen := map[ssa.Value]bool{}
+	var isFalse func(v ssa.Value) bool
+	isFalse = func(v ssa.Value) bool {
+		if seen[v] {
+			return true
+		}
+		seen[v] = true
+		switch x := v.(type) {
+		case *ssa.Const:
+			return x.Value != nil && x.Value.ExactString() == "false"
+		case *ssa.Phi:
+			for _, e := range x.Edges {
+				if !isFalse(e) {
+					return false
+				}
+			}
+			return true
+		case *ssa.Call:
+			g := x.Common().StaticCallee()
+			if g == nil || g.Blocks == nil || g.Signature.Results().Len() != 1 {
+				return false
+			}
+			return mayReturnNonFalse(g, depth+1) == nil
+		}
+		return false
+	}
+	for _, ret := range returnsOf(fn) {
+		if len(ret.Results) != 1 {
+			continue
+		}
+		if !isFalse(ret.Results[0]) && bad == nil {
+			bad = ret
+		}
+	}
+	return bad
 }
